@@ -34,8 +34,10 @@ Invoke == /\ More /\ Ev.ev = "invoke" /\ pend[Ev.th].status = "idle"
           /\ pend' = [pend EXCEPT ![Ev.th] = [status |-> "invoked", call |-> Ev.call]]
           /\ l' = l + 1 /\ UNCHANGED <<tid, st, ren>>
 
+\* the call takes effect atomically, with any of the choices C02 leaves open (VizierAtomic.Variants)
 Linearize(t) == /\ pend[t].status = "invoked"
-                /\ LET r == Apply(st, pend[t].call) IN
+                /\ \E v \in Variants(st, pend[t].call) :
+                     LET r == Apply(st, v) IN
                      /\ st' = r.st
                      /\ pend' = [pend EXCEPT ![t] = [status |-> "linearized", call |-> pend[t].call, resp |-> r.resp]]
                 /\ UNCHANGED <<tid, l, ren>>
